@@ -99,7 +99,19 @@ func runC12(t *testing.T, seed uint64, m *Mask) *Report {
 			maxLen = 40
 		}
 		op.Pipe = nil
-		for k := r.Intn(maxLen + 1); k > 0; k-- {
+		k := r.Intn(maxLen + 1)
+		if r.Chance(0.04) {
+			// the boundaries of the one-byte pipe length, up to the documented maximum of 255 filters
+			k = []int{127, 128, 254, 255}[r.Intn(4)]
+			if len(op.Data) > 300 {
+				op.Data = op.Data[:300]
+			}
+		}
+		for ; k > 0; k-- {
+			if len(op.Pipe) >= 12 {
+				op.Pipe = append(op.Pipe, world.FMd5) // long pipes: mostly the cheap filter
+				continue
+			}
 			op.Pipe = append(op.Pipe, filters[r.Intn(len(filters))])
 		}
 		switch {
@@ -108,6 +120,9 @@ func runC12(t *testing.T, seed uint64, m *Mask) *Report {
 				op.Pipe = []byte{[]byte{world.FGzip1, world.FGzip5, world.FGzip9}[r.Intn(3)]}
 			}
 		case fault == "corrupt_request" || fault == "corrupt_reply":
+			if len(op.Pipe) > 254 {
+				op.Pipe = op.Pipe[:254]
+			}
 			op.Pipe = append(op.Pipe, world.FMd5)
 			if r.Chance(0.5) {
 				op.Pipe = append([]byte{world.FMd5}, op.Pipe[:len(op.Pipe)-1]...)
